@@ -833,6 +833,33 @@ def function_level(ctx, proof_ok):
                                    "gen_vs_python_diffs": len(ls[0]), "client_vs_spec_diffs": len(ls[1])}
 
 
+def big_messages(ctx):
+    """messages well over 64 KiB whose bodies are nothing but dot lines, with header lengths that put the line starts at
+    every phase relative to any power-of-two offset: whatever way the implementation pushes a large RETR, the reply must be
+    one correctly stuffed multi-line response that delivers exactly the announced octets.  Implementation only (the
+    property's oracle on the real replies); not sent through Coq (the literals would be megabytes)."""
+    n = 0
+    kinds = {}
+    for line, width in ((".", 3), ("..", 4), (".x", 4)) if ctx.thorough else ((".", 3),):
+        msgs = []
+        for pad in range(width):
+            body = (line + "\n") * (70000 // width + 1500 * pad)
+            msgs.append(f"From: big@example.com\nSubject: big {line} {pad}\nX-Pad: {'p' * pad}\n\n" + body)
+        script = [["append", "mh", m] for m in msgs] + [["open"], ["pop", "LIST"]] + \
+                 [["pop", f"RETR {i + 1}"] for i in range(len(msgs))] + [["pop", "STAT"], ["pop", "QUIT"], ["observe"]]
+        h = run_script(script, seed=7)
+        n += len(msgs)
+        ctx.count({"big_messages": f"{len(msgs)} messages of ~{len(msgs[0]) // 1000} KB of {line!r} lines"}, nontrivial=True)
+        for (i, text, kind) in h["finds"]:
+            kinds[kind] = kinds.get(kind, 0) + 1
+            if kinds[kind] == 1:
+                ctx.violation("POP3 (message over 64 KiB made of dot lines): " + text[:400],
+                              {"messages": [m[:80] + f"... ({len(m)} characters of {line!r} lines)" for m in msgs],
+                               "script": [st if st[0] != "append" else ["append", "mh", "<big message>"] for st in script],
+                               "step": i, "kind": kind})
+    ctx.extra["big_messages"] = {"messages": n, "findings": kinds}
+
+
 def session_level(ctx):
     rng = ctx.rng
     nh = 160 if ctx.thorough else 22
@@ -932,6 +959,7 @@ def run(ctx):
     except core.CoqError as e:
         ctx.proof_broken.append({"what": "function-level cases could not be evaluated", "log": e.log[-1500:]})
     session_level(ctx)
+    big_messages(ctx)
     ctx.trusted += [
         "the e-mail library's rendering of a message (msg_as_bytes, msg_headers_as_bytes) is an oracle of the model: "
         "the three renderings are measured on the stored message and given to the model as data",
